@@ -197,12 +197,28 @@ theorem C16_generator_advanced (v : Variant) (e : Entry) (he : e.acceptsGenerato
   | initLogPosterior n => simp [Entry.acceptsGenerator] at he
   | initHierarchical p nIds nEps n => simp [Entry.acceptsGenerator] at he
 
-/-- `PriorPredictiveModel.sample` documents `seed: int or numpy.random.Generator`, but a `Generator`
-    ends in `np.random.seed(Generator)`: a `TypeError`, no draw, the object untouched. -/
-theorem C16_generator_rejected_counterexample (v : Variant) (spec : PredSpec) (nT n : Nat) (g : Gen) (w : World) :
+/-- `PriorPredictiveModel.sample` documents `seed: int or numpy.random.Generator`, but as it is a
+    `Generator` ends in `np.random.seed(Generator)`: a `TypeError`, no draw, the object untouched. -/
+theorem C16_generator_rejected_counterexample (v : Variant) (hv : v.priorGen = none) (spec : PredSpec)
+    (nT n : Nat) (g : Gen) (w : World) :
     (priorPredSample v spec nT n (.gen g) w).1.1.err = true ∧
     (priorPredSample v spec nT n (.gen g) w).1.1.calls = [] ∧
-    (priorPredSample v spec nT n (.gen g) w).1.2 = .gen g :=
-  ⟨rfl, rfl, rfl⟩
+    (priorPredSample v spec nT n (.gen g) w).1.2 = .gen g := by
+  simp [priorPredSample, hv]
+
+/-- The repaired behaviour (`seed = int(seed.integers(0, 1e6))`, the idiom of
+    `TruncatedGaussianModel.sample`): whatever value `s'` that draw returns, the `Generator` is used
+    exactly once, at its current counter, and comes back advanced by one call; the entries are those
+    of the integer seed `s'` (so everything proved for integer seeds applies), and nothing else is
+    drawn from the caller's object. -/
+theorem C16_prior_generator_repaired (v : Variant) (s' : Int) (hv : v.priorGen = some s') (spec : PredSpec)
+    (nT n : Nat) (g : Gen) (w : World) :
+    (priorPredSample v spec nT n (.gen g) w).1.1.err = (priorPredSample v spec nT n (.int s') w).1.1.err ∧
+    (priorPredSample v spec nT n (.gen g) w).1.2 = .gen ⟨g.stream, g.ctr + 1⟩ ∧
+    (priorPredSample v spec nT n (.gen g) w).1.1.cells = (priorPredSample v spec nT n (.int s') w).1.1.cells ∧
+    (priorPredSample v spec nT n (.gen g) w).1.1.calls
+      = ⟨g.stream, g.ctr, .seedInt, 1⟩ :: (priorPredSample v spec nT n (.int s') w).1.1.calls ∧
+    (priorPredSample v spec nT n (.gen g) w).2 = (priorPredSample v spec nT n (.int s') w).2 := by
+  simp [priorPredSample, hv]
 
 end ChiModel.Seeds
